@@ -170,6 +170,11 @@ func mkVAA(rng *rand.Rand, named uint32, signerPool []int, positions []int, corr
 	payload := make([]byte, 1+rng.Intn(60))
 	rng.Read(payload)
 	body := vlib.BuildBody(uint32(1700000000+rng.Intn(1000)), rng.Uint32(), uint16(2+rng.Intn(5)), uint16(rng.Intn(5)), em, serial, 1, payload)
+	return mkCopy(body, named, signerPool, positions, corrupt)
+}
+
+// mkCopy wraps a given signing body in a header of its own: the same message as another guardian node might re-gossip it.
+func mkCopy(body []byte, named uint32, signerPool []int, positions []int, corrupt string) ([]byte, *vaa.VAA) {
 	d := vlib.Digest(body)
 	var idx []uint8
 	var sigs [][]byte
@@ -522,6 +527,38 @@ func handoff(rng *rand.Rand) {
 	}
 	<-queue // room again
 	time.Sleep(20 * time.Millisecond)
+	for len(queue) > 0 {
+		<-queue
+	}
+	// The valid VAA has been verified but not handed over. Copies of the same message with another header
+	// (under-signed, wrongly signed, unsigned, naming a set that does not exist) arrive while there is room:
+	// having seen the body before is no reason to let them through.
+	pl, errB := vlib.ParseWire(lastW)
+	if errB != nil {
+		panic(errB)
+	}
+	body := pl.Body
+	type variant struct {
+		name    string
+		named   uint32
+		pos     []int
+		corrupt string
+	}
+	variants := []variant{{"two-of-three-signatures", 0, []int{0, 2}, ""}, {"one-signature", 0, []int{1}, ""}, {"wrong-signer", 0, []int{0, 1, 2}, "wrong-sig"},
+		{"names-set-that-does-not-exist", 1 + uint32(rng.Intn(5)), []int{0, 1, 2}, ""}, {"repeated-signature", 0, []int{0, 1, 2}, "repeated"}}
+	rng.Shuffle(len(variants), func(i, j int) { variants[i], variants[j] = variants[j], variants[i] })
+	for _, vr := range variants {
+		w, v := mkCopy(body, vr.named, sets[0], vr.pos, vr.corrupt)
+		errP := cons.Push(ctx, v, w)
+		r.Count("handoff_invalid_copies_pushed", 1)
+		for len(queue) > 0 {
+			m := <-queue
+			pw, err := vlib.ParseWire(m.VerifSerialized())
+			if err != nil || pw.SetIndex != 0 || pw.CheckQuorumSigned(keysOf(sets[0])) != nil {
+				r.Violation("handoff:invalid-copy-of-an-already-verified-message-queued:"+vr.name, map[string]interface{}{"capacity": capQ, "push_error": fmt.Sprint(errP)})
+			}
+		}
+	}
 	err := cons.Push(ctx, lastV, lastW)
 	r.Count("handoff_scenarios", 1)
 	found := false
@@ -578,5 +615,5 @@ func main() {
 	}
 	r.Assume("the core contract is a JSON-RPC stub answering eth_call for getCurrentGuardianSetIndex/getGuardianSet like the contract (zero value for unknown indices)",
 		"the explorer is built against the node module version its go.mod pins (as the real binary is)")
-	r.Finish("evaluations", "gate_cases", "(a) VAAs naming an old, the current, a not-yet-known and a nonexistent set, signed by q-1/q/all members of the named or of another set, with wrong / unordered / repeated signatures, for set sizes 1..19: whatever reaches the queue must verify against the set it names; (b) 8 goroutines doing Get(i)/Current()/Append over 24 sets, results checked against ground truth, histories checked with porcupine, -race; (c) push on a full queue then retry; distinct non-trivial = distinct gate case shapes", 20)
+	r.Finish("evaluations", "gate_cases", "(a) VAAs naming an old, the current, a not-yet-known and a nonexistent set, signed by q-1/q/all members of the named or of another set, with wrong / unordered / repeated signatures, for set sizes 1..19: whatever reaches the queue must verify against the set it names; (b) 8 goroutines doing Get(i)/Current()/Append over 24 sets, results checked against ground truth, histories checked with porcupine, -race; (c) push on a full queue, then invalid copies of the same message (under-signed, wrong signer, repeated signature, nonexistent set), then the retry; distinct non-trivial = distinct gate case shapes", 20)
 }
